@@ -427,7 +427,7 @@ def enumerate_specs(tier, seed=0):
                     continue
                 if n == 3 and rng.random() > (0.35 if tier == "quick" else 1.0):
                     continue
-                if n == 4 and rng.random() > 0.12:
+                if n == 4 and rng.random() > 0.5:
                     continue
                 specs.append({"kind": "history", "history": list(h)})
                 if sum(1 for x in h if x[0] == "K") >= 2 and len(specs) % 3 == 0:
